@@ -6,8 +6,10 @@
 #include "alloc.h"
 
 static size_t surplus(void) { size_t s = in_size(); __CPROVER_assume(s < SIZE_MAX - 16); return s; }
-static cbor_item_t* leaf(void) { cbor_item_t* x = cbor_build_uint8(in_u8()); __CPROVER_assume(x != NULL); return x; }
-static cbor_item_t* chunk(int text) { unsigned char b = in_u8(); cbor_item_t* x = text ? cbor_build_stringn((const char*)&b, 1) : cbor_build_bytestring(&b, 1); __CPROVER_assume(x != NULL); return x; }
+/* block accounting is measured, not assumed: how many allocator blocks an item takes is a layout decision of the library */
+static size_t last_blocks;
+static cbor_item_t* leaf(void) { size_t l0 = a_live; cbor_item_t* x = cbor_build_uint8(in_u8()); __CPROVER_assume(x != NULL); last_blocks = a_live - l0; return x; }
+static cbor_item_t* chunk(int text) { size_t l0 = a_live; unsigned char b = in_u8(); cbor_item_t* x = text ? cbor_build_stringn((const char*)&b, 1) : cbor_build_bytestring(&b, 1); __CPROVER_assume(x != NULL); last_blocks = a_live - l0; return x; }
 #define OK(e) { bool ok_ = (e); __CPROVER_assume(ok_); }
 
 #define OP_INCREF 1
@@ -40,7 +42,7 @@ void harness(void) {
   cbor_item_t* x = leaf(); size_t s = surplus(); x->refcount = 1 + s;
   VF_ASSERT(cbor_incref(x) == x && cbor_refcount(x) == 2 + s, "incref adds exactly one reference and returns the item");
 #elif OP == OP_DECREF_LEAF || OP == OP_INTERMEDIATE_DECREF
-  cbor_item_t* x = leaf(); size_t s = surplus(); x->refcount = 1 + s;
+  cbor_item_t* x = leaf(); size_t xb = last_blocks; size_t s = surplus(); x->refcount = 1 + s;
   cbor_item_t* h = x; size_t live0 = a_live;
 #if OP == OP_DECREF_LEAF
   cbor_decref(&h);
@@ -49,13 +51,14 @@ void harness(void) {
   cbor_intermediate_decref(h);
 #endif
   if (s > 0) { VF_ASSERT(x->refcount == s && a_live == live0, "decref removes exactly one reference; nothing released while references remain"); }
-  else VF_ASSERT(a_live == live0 - 1, "last reference: the item is released, exactly once");
+  else VF_ASSERT(a_live == live0 - xb, "last reference: the item (all its blocks) is released, exactly once");
 #elif OP == OP_MOVE
   cbor_item_t* x = leaf(); size_t s = surplus(); x->refcount = 1 + s; size_t live0 = a_live;
   VF_ASSERT(cbor_move(x) == x && x->refcount == s && a_live == live0, "move drops one reference without ever releasing");
 #elif OP == OP_DECREF_ARRAY_SHARED
-  cbor_item_t* c1 = leaf(); cbor_item_t* c2 = chunk(1); cbor_item_t* a = cbor_new_indefinite_array(); __CPROVER_assume(a);
+  cbor_item_t* c1 = leaf(); size_t b1 = last_blocks; cbor_item_t* c2 = chunk(1); size_t b2 = last_blocks; size_t la = a_live; cbor_item_t* a = cbor_new_indefinite_array(); __CPROVER_assume(a);
   OK(cbor_array_push(a, c1)); OK(cbor_array_push(a, c2)); OK(cbor_array_push(a, c1));
+  size_t ba = a_live - la;   /* header + slot table, however the library lays them out */
   size_t s1 = surplus(), s2 = surplus(), sa = surplus();
   c1->refcount = 2 + s1; c2->refcount = 1 + s2; a->refcount = 1 + sa;   /* the client has already dropped its own references to the children */
   size_t live0 = a_live; cbor_item_t* h = a;
@@ -63,32 +66,33 @@ void harness(void) {
   if (sa > 0) VF_ASSERT(h == a && a->refcount == sa && c1->refcount == 2 + s1 && c2->refcount == 1 + s2 && a_live == live0, "container with remaining references: nothing below it is touched");
   else {
     VF_ASSERT(h == NULL, "container released");
-    size_t freed = 2;                      /* array header + its slot table */
-    if (s1 == 0) freed += 1; else VF_ASSERT(c1->refcount == s1, "child held twice loses exactly two references");
-    if (s2 == 0) freed += 2; else VF_ASSERT(c2->refcount == s2, "child held once loses exactly one reference");
+    size_t freed = ba;
+    if (s1 == 0) freed += b1; else VF_ASSERT(c1->refcount == s1, "child held twice loses exactly two references");
+    if (s2 == 0) freed += b2; else VF_ASSERT(c2->refcount == s2, "child held once loses exactly one reference");
     VF_ASSERT(a_live == live0 - freed, "exactly the items whose last reference went away are released, each once");
   }
 #elif OP == OP_DECREF_MAP
-  cbor_item_t* k = leaf(); cbor_item_t* v = leaf(); cbor_item_t* m = cbor_new_definite_map(2); __CPROVER_assume(m);
+  cbor_item_t* k = leaf(); size_t bk = last_blocks; cbor_item_t* v = leaf(); size_t bv = last_blocks; size_t lm = a_live; cbor_item_t* m = cbor_new_definite_map(2); __CPROVER_assume(m);
   OK(cbor_map_add(m, (struct cbor_pair){.key = k, .value = v}));
+  size_t bm = a_live - lm;
   size_t sk = surplus(), sv = surplus(); k->refcount = 1 + sk; v->refcount = 1 + sv;
   size_t live0 = a_live;
   cbor_decref(&m);
   VF_ASSERT(m == NULL, "map released");
-  size_t freed = 2; if (sk == 0) freed++; else VF_ASSERT(k->refcount == sk, "key loses one reference"); if (sv == 0) freed++; else VF_ASSERT(v->refcount == sv, "value loses one reference");
+  size_t freed = bm; if (sk == 0) freed += bk; else VF_ASSERT(k->refcount == sk, "key loses one reference"); if (sv == 0) freed += bv; else VF_ASSERT(v->refcount == sv, "value loses one reference");
   VF_ASSERT(a_live == live0 - freed, "map release frees exactly what only it kept alive");
 #elif OP == OP_DECREF_TAG
-  cbor_item_t* c = leaf(); cbor_item_t* t = cbor_build_tag(in_u64(), c); __CPROVER_assume(t);
+  cbor_item_t* c = leaf(); size_t bc = last_blocks; size_t lt = a_live; cbor_item_t* t = cbor_build_tag(in_u64(), c); __CPROVER_assume(t); size_t bt = a_live - lt;
   size_t sc = surplus(); c->refcount = 1 + sc; size_t live0 = a_live;
   cbor_decref(&t);
-  if (sc == 0) VF_ASSERT(a_live == live0 - 2, "tag and its only-owned child released"); else VF_ASSERT(c->refcount == sc && a_live == live0 - 1, "tagged child loses one reference");
+  if (sc == 0) VF_ASSERT(a_live == live0 - bt - bc, "tag and its only-owned child released"); else VF_ASSERT(c->refcount == sc && a_live == live0 - bt, "tagged child loses one reference");
 #elif OP == OP_DECREF_CHUNKED
-  cbor_item_t* c = chunk(KIND); cbor_item_t* s = KIND ? cbor_new_indefinite_string() : cbor_new_indefinite_bytestring(); __CPROVER_assume(s);
+  cbor_item_t* c = chunk(KIND); size_t bc = last_blocks; size_t ls = a_live; cbor_item_t* s = KIND ? cbor_new_indefinite_string() : cbor_new_indefinite_bytestring(); __CPROVER_assume(s);
   OK(KIND ? cbor_string_add_chunk(s, c) : cbor_bytestring_add_chunk(s, c));
+  size_t bs = a_live - ls;
   size_t sc = surplus(); c->refcount = 1 + sc; size_t live0 = a_live;
   cbor_decref(&s);
-  /* chunked string: header + data struct + chunk table; chunk: header + payload */
-  if (sc == 0) VF_ASSERT(a_live == live0 - 5, "string, its tables and its only-owned chunk released"); else VF_ASSERT(c->refcount == sc && a_live == live0 - 3, "chunk loses one reference");
+  if (sc == 0) VF_ASSERT(a_live == live0 - bs - bc, "string, its tables and its only-owned chunk released"); else VF_ASSERT(c->refcount == sc && a_live == live0 - bs, "chunk loses one reference");
 #elif OP == OP_PUSH || OP == OP_PUSH_FULL || OP == OP_SET_APPEND
   cbor_item_t* x = leaf(); cbor_item_t* y = leaf();
 #if OP == OP_PUSH_FULL
@@ -110,12 +114,12 @@ void harness(void) {
 #endif
   VF_ASSERT(a->refcount == 1 + sa && y->refcount == 2 + sy, "container and existing elements keep their counts");
 #elif OP == OP_REPLACE
-  cbor_item_t* x = leaf(); cbor_item_t* y = leaf(); cbor_item_t* a = cbor_new_indefinite_array(); __CPROVER_assume(a); OK(cbor_array_push(a, y));
+  cbor_item_t* x = leaf(); cbor_item_t* y = leaf(); size_t by = last_blocks; cbor_item_t* a = cbor_new_indefinite_array(); __CPROVER_assume(a); OK(cbor_array_push(a, y));
   size_t sx = surplus(), sy = surplus(); x->refcount = 1 + sx; y->refcount = 1 + sy;   /* client already dropped y */
   size_t live0 = a_live;
   bool ok = KIND ? cbor_array_set(a, 0, x) : cbor_array_replace(a, 0, x);
   VF_ASSERT(ok && x->refcount == 2 + sx, "replace takes one reference to the new element");
-  if (sy == 0) VF_ASSERT(a_live == live0 - 1, "replaced element released when the array held its last reference"); else VF_ASSERT(y->refcount == sy && a_live == live0, "replaced element loses exactly one reference");
+  if (sy == 0) VF_ASSERT(a_live == live0 - by, "replaced element released when the array held its last reference"); else VF_ASSERT(y->refcount == sy && a_live == live0, "replaced element loses exactly one reference");
   VF_ASSERT(cbor_array_handle(a)[0] == x, "slot holds the new element");
 #elif OP == OP_REPLACE_SAME
   cbor_item_t* y = leaf(); cbor_item_t* a = KIND ? cbor_new_definite_array(1) : cbor_new_indefinite_array(); __CPROVER_assume(a); OK(cbor_array_push(a, y));
@@ -130,12 +134,12 @@ void harness(void) {
   bool ok = cbor_array_push(a, y);
   VF_ASSERT(ok && y->refcount == 3 + sy && cbor_array_size(a) == 2 && cbor_array_handle(a)[0] == y && cbor_array_handle(a)[1] == y, "an item may be held by several slots: one reference per slot");
 #elif OP == OP_MAP_ADD_SAME
-  cbor_item_t* k = leaf(); cbor_item_t* m = cbor_new_indefinite_map(); __CPROVER_assume(m);
-  size_t sk = surplus(); k->refcount = 1 + sk; size_t live0 = a_live;
+  cbor_item_t* k = leaf(); size_t live0 = a_live; cbor_item_t* m = cbor_new_indefinite_map(); __CPROVER_assume(m);
+  size_t sk = surplus(); k->refcount = 1 + sk;
   bool ok = cbor_map_add(m, (struct cbor_pair){.key = k, .value = k});
   VF_ASSERT(ok && k->refcount == 3 + sk, "the same item as key and value: two references");
   cbor_decref(&m);
-  VF_ASSERT(k->refcount == 1 + sk && a_live == live0 - 1, "releasing the map drops both references (header freed; the slot table was allocated after live0 was taken)");
+  VF_ASSERT(k->refcount == 1 + sk && a_live == live0, "releasing the map drops both references and every block the map took");
 #elif OP == OP_GET
   cbor_item_t* y = leaf(); cbor_item_t* a = cbor_new_indefinite_array(); __CPROVER_assume(a); OK(cbor_array_push(a, y));
   size_t sy = surplus(); y->refcount = 2 + sy;
@@ -173,13 +177,14 @@ void harness(void) {
   VF_ASSERT(a->refcount == 1 + sa && c1->refcount == 2 + s1, "copy leaves every source reference count unchanged");
   VF_ASSERT(cbor_refcount(cp) == 1 && cbor_refcount(cbor_array_handle(cp)[0]) == 1 && cbor_refcount(cbor_array_handle(cp)[1]) == 1, "copy nodes have one owner each");
 #elif OP == OP_DECREF_NESTED
-  cbor_item_t* c1 = leaf(); cbor_item_t* t = cbor_build_tag(7, c1); cbor_item_t* a = cbor_new_definite_array(2); __CPROVER_assume(t && a);
+  cbor_item_t* c1 = leaf(); size_t b1 = last_blocks; size_t lt = a_live; cbor_item_t* t = cbor_build_tag(7, c1); size_t bt = a_live - lt; size_t la = a_live; cbor_item_t* a = cbor_new_definite_array(2); __CPROVER_assume(t && a);
   OK(cbor_array_push(a, t)); OK(cbor_array_push(a, c1));
+  size_t ba = a_live - la;
   size_t s1 = surplus(), st = surplus(); c1->refcount = 2 + s1; t->refcount = 1 + st;
   size_t live0 = a_live;
   cbor_decref(&a);
-  size_t freed = 2;
-  if (st == 0) { freed += 1; if (s1 == 0) freed += 1; else VF_ASSERT(c1->refcount == s1, "child loses the array's and the released tag's references"); }
+  size_t freed = ba;
+  if (st == 0) { freed += bt; if (s1 == 0) freed += b1; else VF_ASSERT(c1->refcount == s1, "child loses the array's and the released tag's references"); }
   else { VF_ASSERT(t->refcount == st, "tag loses one reference"); VF_ASSERT(c1->refcount == 1 + s1, "child loses only the array's reference while the tag lives on"); }
   VF_ASSERT(a_live == live0 - freed, "exactly the unreferenced items are released, each once");
 #endif
